@@ -7,6 +7,8 @@ import (
 	"io"
 	"log"
 	"os"
+	"runtime/debug"
+	"strings"
 	"testing"
 
 	"verifkit/ev"
@@ -41,4 +43,37 @@ func replayOr(prop string, replay func(cj []byte) []ev.Violation) bool {
 	}
 	os.Exit(ev.ReportReplay(prop, p, cj, replay(cj)))
 	return true
+}
+
+// A panic of the code under test while a case runs is a finding about that case, not a harness failure:
+// guard2/guard3 turn it into a violation of the running property (the replay panics again, so it reproduces).
+func crashMsg(p interface{}) string {
+	var keep []string
+	for _, l := range strings.Split(string(debug.Stack()), "\n") {
+		if strings.Contains(l, "thermal-recorder") && !strings.Contains(l, "zz_verif_") {
+			keep = append(keep, strings.TrimSpace(l))
+		}
+		if len(keep) == 6 {
+			break
+		}
+	}
+	return fmt.Sprintf("the code under test panicked: %v | %s", p, strings.Join(keep, " <- "))
+}
+
+func guard2(prop string, f func() (string, string)) (sig, msg string) {
+	defer func() {
+		if p := recover(); p != nil {
+			sig, msg = prop+":panic-in-code-under-test", crashMsg(p)
+		}
+	}()
+	return f()
+}
+
+func guard3(prop string, f func() (string, string, int)) (sig, msg string, n int) {
+	defer func() {
+		if p := recover(); p != nil {
+			sig, msg = prop+":panic-in-code-under-test", crashMsg(p)
+		}
+	}()
+	return f()
 }
